@@ -2,6 +2,7 @@ import NxModel.Nex.RmcServer
 import NxModel.Nex.RmcServerObj
 import NxModel.Nex.RmcResult
 import NxModel.Nex.RmcRequest
+import NxModel.Nex.RmcListener
 import NxModel.DriverUtil
 /-! line-protocol driver for the RMC server model (stateful: the table of registered servers)
   clear                                         -> ok
@@ -10,6 +11,9 @@ import NxModel.DriverUtil
   gen <protocol> <method> <extract> <user>      -> <hres>             (generated dispatch only)
   full <hex datagram> <extract> <user>          -> <hres> => <reaction>
   sbegin                                        -> ok     a new connection (request sequence) starts
+  lnew | lacc <c> | lclose <c>                  -> ok     a listener serving the current table; it accepts / loses connection c
+  lreg <c> <protocol> <noresp> <methods>        -> ok | dup | noconn       client.register_server on connection c
+  lreq <c> <hex datagram> <extract> <user>      -> <hres> => <reaction> | noconn    answered from connection c's table
   sreq <hex datagram> <extract> <user>          -> <hres> => <reaction> | dead    its next request, through `serveStep` (= `serve`)
   sreqo <hex datagram> <extract> <user> <truth> <waits>
                                                 -> <ms> <hres> => <reaction> | dead   the same against registered OBJECTS whose truth
@@ -294,6 +298,7 @@ structure D where
   tbl : List Server
   alive : Bool
   env : Nx.RmcRequest.Env
+  lst : Nx.RmcListener.Listener := { servers := [], conns := [] }
 
 def stepTbl (env : Nx.RmcRequest.Env) (tbl : List Server) (line : String) : List Server × String :=
   match line.splitOn " " with
@@ -382,6 +387,45 @@ def stepLine (d : D) (line : String) : D × String :=
             | .error e => "err " ++ showExc (Nx.RmcRequest.excOf e))
       else (d, "bad-op")
     | _, _ => (d, "bad-op")
+  -- a LISTENER's life (NxModel/Nex/RmcListener.lean): `lnew` = serve(servers = the current table); accept / close /
+  -- `client.register_server` on connection c / a request on connection c, answered from THAT connection's table
+  | ["lnew"] => ({ d with lst := { servers := d.tbl, conns := [] } }, "ok")
+  | ["lacc", c] =>
+    match c.toNat? with
+    | some c => ({ d with lst := (Nx.RmcListener.step d.lst (.accept c)).1 }, "ok")
+    | none => (d, "bad-op")
+  | ["lclose", c] =>
+    match c.toNat? with
+    | some c => ({ d with lst := (Nx.RmcListener.step d.lst (.close c)).1 }, "ok")
+    | none => (d, "bad-op")
+  | ["lreg", c, p, nr, ms] =>
+    match c.toNat?, p.toNat?, parseMethods ms with
+    | some c, some p, some ms =>
+      if nr = "0" ∨ nr = "1" then
+        let (l', o) := Nx.RmcListener.step d.lst (.register c { protocol := p, noresponse := nr = "1", methods := ms })
+        ({ d with lst := l' }, match o with | .registered true => "ok" | .registered false => "dup" | _ => "noconn")
+      else (d, "bad-op")
+    | _, _, _ => (d, "bad-op")
+  | ["lreq", c, h, ex, u] =>
+    match c.toNat?, fromHex h, parseUser u with
+    | some c, some data, some u =>
+      match decode data with
+      | .error e => (d, "crash " ++ e.name)
+      | .ok m =>
+        if m.mode ≠ 0 then (d, "notreq") else
+        match parseExtractIn d.env m.body ex with
+        | none => (d, "bad-op")
+        | some ex =>
+        match Nx.RmcListener.tableOf c d.lst.conns with
+        | none => (d, "noconn")
+        | some t =>
+          let hres : Option HandleResult := match findServer m.protocol t, m.method with
+            | some srv, some mid => some (generatedHandle srv mid ex u)
+            | _, _ => none
+          match (Nx.RmcListener.step d.lst (.request c m (hres.getD (.returned [])))).2 with
+          | .reaction r => (d, (match hres with | some h => showHres h | none => "nosrv") ++ " => " ++ showReaction r)
+          | _ => (d, "noconn")
+    | _, _, _ => (d, "bad-op")
   | ["sreq", h, ex, u] =>
     match fromHex h, parseUser u with
     | some data, some u =>
